@@ -917,9 +917,62 @@ func checkEnvTimeOnlyDefault(c *Ctx, r *Report) {
 					}
 				}
 			}
+			if !onlyDefault {
+				// written back through a helper that returns the configured time
+				// when it is set and the environment's only when it is zero
+				if call, isCall := st.Val.(*ssa.Call); isCall {
+					if g := call.Call.StaticCallee(); g != nil && len(g.Blocks) > 0 && c.isModuleFunc(g) {
+						for i, a := range call.Call.Args {
+							if i < len(g.Params) && pa.Of(a).has("Info.MTime") && !hasEnvAtom(pa.Of(a)) && zeroDefaultHelper(g, g.Params[i]) {
+								onlyDefault = true
+							}
+						}
+					}
+				}
+			}
 			r.Check(onlyDefault, "T1-env-default", fmt.Sprintf("%s: environment/clock time#%d is stored only where the configured mtime is zero", c.funcKey(fn), k), c.instrPos(st),
 				"the store is not on the true edge of a plain <mtime>.IsZero() test: some path replaces a configured mtime by SOURCE_DATE_EPOCH or the clock, and the bytes then follow the environment")
 		})
 	}
 	r.Floor("T1-env-default", n, 1)
+}
+
+func hasEnvAtom(p provSet) bool {
+	for _, a := range p.list() {
+		if strings.Contains(a, "modtime.FromEnv") || a == "call:os.Getenv" || a == "call:time.Now" || a == "call:os.LookupEnv" {
+			return true
+		}
+	}
+	return false
+}
+
+// zeroDefaultHelper: every return of g yields the parameter p itself, or sits
+// in a block entered only from the true edge of p.IsZero().
+func zeroDefaultHelper(g *ssa.Function, p *ssa.Parameter) bool {
+	n := 0
+	for _, b := range g.Blocks {
+		ret, ok := b.Instrs[len(b.Instrs)-1].(*ssa.Return)
+		if !ok || len(ret.Results) != 1 {
+			continue
+		}
+		n++
+		if ret.Results[0] == ssa.Value(p) {
+			continue
+		}
+		if len(b.Preds) != 1 {
+			return false
+		}
+		ifi, isIf := b.Preds[0].Instrs[len(b.Preds[0].Instrs)-1].(*ssa.If)
+		if !isIf || b.Preds[0].Succs[0] != b {
+			return false
+		}
+		zc, isCall := ifi.Cond.(*ssa.Call)
+		if !isCall || len(zc.Call.Args) != 1 || zc.Call.Args[0] != ssa.Value(p) {
+			return false
+		}
+		if o := calleeObj(zc); o == nil || o.Name() != "IsZero" {
+			return false
+		}
+	}
+	return n > 0
 }
